@@ -4,6 +4,9 @@
 //! See /doc/W3C_SCXML_2024_07_13/index.html
 //!
 
+// `rfsm_verif` is a rustc cfg set only by the verification harness.
+#![allow(unexpected_cfgs)]
+
 extern crate core;
 
 pub mod executable_content;
